@@ -48,7 +48,7 @@ Section Agree.
     match start with
     | Ok (Some s0) =>
         if negb (o_full (k_obs c)) then [io_fstatus o =? 0] else
-        let '(s, _, _) := run_adds m s0 (k_recs c) in
+        let '(s, _, _, _) := run_hist m (Datatypes.S (length (k_hist c))) (m_sort m) (m_dump m) s0 (k_recs c) (k_hist c) (k_queries c) in
         let '(_, s1) := run_queries m s (k_queries c) in
         let '(w1, s2) := im_write im s1 in
         let r := im_read im w1 in
